@@ -86,6 +86,7 @@ func init() {
 // Reset clears the hash-cons table (used between independent harness runs to bound memory).
 func Reset() {
 	table = map[string]*Term{}
+	extractMemo = map[[3]int]*Term{}
 	nextID = 1
 	True = mk(&Term{K: KTrue})
 	False = mk(&Term{K: KFalse})
@@ -821,6 +822,10 @@ func fit(s *Term, w int) *Term {
 
 // ---------- structure ----------
 
+var extractMemo = map[[3]int]*Term{}
+
+// Extract is memoised: pushing extraction through bitwise operators and (for low parts)
+// through modular arithmetic walks shared DAGs.
 func Extract(a *Term, hi, lo int) *Term {
 	if hi < lo || lo < 0 || hi >= a.W {
 		panic(fmt.Sprintf("Extract(%d,%d) of width %d", hi, lo, a.W))
@@ -828,6 +833,19 @@ func Extract(a *Term, hi, lo int) *Term {
 	if lo == 0 && hi == a.W-1 {
 		return a
 	}
+	if a.K == KConst {
+		return extract1(a, hi, lo)
+	}
+	k := [3]int{a.ID, hi, lo}
+	if r, ok := extractMemo[k]; ok {
+		return r
+	}
+	r := extract1(a, hi, lo)
+	extractMemo[k] = r
+	return r
+}
+
+func extract1(a *Term, hi, lo int) *Term {
 	nw := hi - lo + 1
 	switch a.K {
 	case KConst:
@@ -865,29 +883,29 @@ func Extract(a *Term, hi, lo int) *Term {
 			return Extract(in, hi, lo)
 		}
 	case KAnd, KOr, KXor:
-		// push down only when it cannot cascade (every argument extracts structurally)
-		if allCheap(a.Args) {
-			args := make([]*Term, len(a.Args))
-			for i, x := range a.Args {
-				args[i] = Extract(x, hi, lo)
-			}
-			return bitN(a.K, args)
+		// always pushed down (one canonical form; memoised, so shared DAGs are walked once)
+		args := make([]*Term, len(a.Args))
+		for i, x := range a.Args {
+			args[i] = Extract(x, hi, lo)
 		}
+		return bitN(a.K, args)
 	case KNot:
-		if allCheap(a.Args) {
-			return Not(Extract(a.Args[0], hi, lo))
-		}
+		return Not(Extract(a.Args[0], hi, lo))
 	case KIte:
 		if a.Args[1].IsConst() || a.Args[2].IsConst() {
 			return Ite(a.Args[0], Extract(a.Args[1], hi, lo), Extract(a.Args[2], hi, lo))
 		}
 	case KAdd:
-		if lo == 0 && allCheap(a.Args) {
+		if lo == 0 {
 			args := make([]*Term, len(a.Args))
 			for i, x := range a.Args {
 				args[i] = Extract(x, hi, 0)
 			}
 			return AddN(args...)
+		}
+	case KNeg:
+		if lo == 0 {
+			return Neg(Extract(a.Args[0], hi, 0))
 		}
 	}
 	return mk(&Term{K: KExtract, W: nw, Args: []*Term{a}, Hi: hi, Lo: lo})
